@@ -592,6 +592,20 @@ pub fn run(case: &WatchCase, tag: u64) -> Outcome {
                     }
                     d.sender = Some(tx2);
                     d.config = cx::config_for(&d.world()).0;
+                    // The old watcher is stopped: what its debouncer still held, and the batches
+                    // it had flushed but the loop had not taken yet, are lost; the new compiler
+                    // state scans the tree as it is now, and the new watcher starts empty.
+                    let mut debouncer = DebounceDataInner::new(NoCache, Duration::from_millis(TIMEOUT_MS));
+                    debouncer.roots = vec![
+                        (d.config.config_location.clone(), RecursiveMode::NonRecursive),
+                        (d.config.project_root.clone(), RecursiveMode::Recursive),
+                        (d.config.schema.absolute_path.clone(), RecursiveMode::NonRecursive),
+                    ];
+                    d.debouncer = debouncer;
+                    let dropped = d.ready.len() as u64;
+                    d.ready.clear();
+                    *d.counters.entry("batches_lost_with_the_stopped_watcher".into()).or_insert(0) += dropped;
+                    d.last_rename_us = None;
                     d.bump("probe.config_change_restarts_compiler_state");
                 } else if let Some(tx) = &d.sender {
                     tx.try_send(b.events).unwrap_or_else(|_| panic!("harness: channel full"));
